@@ -690,3 +690,634 @@ Proof.
   destruct (dt_is_expired now d); [apply do_dt_remove_filter|].
   exists (fun _ => true); split; [symmetry; apply filter_true|reflexivity].
 Qed.
+
+(* ================================================================== Part 3: RemoveDowntime in full *)
+
+Definition is_user (r : rreason) : bool := match r with RByUser => true | _ => false end.
+
+Lemma cnt_app p a b : c5_cnt p (a ++ b) = c5_cnt p a + c5_cnt p b.
+Proof. unfold c5_cnt. rewrite filter_app, app_length. lia. Qed.
+Lemma rem_ids_app a b : c5_rem_ids (a ++ b) = c5_rem_ids a ++ c5_rem_ids b.
+Proof. induction a as [|x a IH]; cbn; [reflexivity|]. destruct x; cbn; rewrite ?IH; reflexivity. Qed.
+Lemma trig_ids_app a b : c5_trig_ids (a ++ b) = c5_trig_ids a ++ c5_trig_ids b.
+Proof. induction a as [|x a IH]; cbn; [reflexivity|]. destruct x; cbn; rewrite ?IH; reflexivity. Qed.
+Lemma mem_app i a b : c5_mem i (a ++ b) = c5_mem i a || c5_mem i b.
+Proof. unfold c5_mem. apply existsb_app. Qed.
+Lemma mem_In i l : c5_mem i l = true <-> In i l.
+Proof.
+  unfold c5_mem. rewrite existsb_exists. split.
+  - intros (x & Hx & E). apply Z.eqb_eq in E. subst. exact Hx.
+  - intros H. exists i. split; [exact H|apply Z.eqb_refl].
+Qed.
+
+Definition RemSpec (now : Z) (p : bool) (r : rreason) (ds ds' : list dt) (o : list out) : Prop :=
+  ds' = filter (fun x => negb (c5_mem (d_id x) (c5_rem_ids o))) ds /\
+  NoDup (c5_rem_ids o) /\
+  (forall i, In i (c5_rem_ids o) -> exists d, In d ds /\ d_id d = i /\ d_owned d && is_user r = false) /\
+  c5_cnt c5_is_end o =
+    (if p then 0 else Z.of_nat (length (filter (dt_is_triggered now)
+                                               (filter (fun x => c5_mem (d_id x) (c5_rem_ids o)) ds)))) /\
+  c5_cnt c5_is_start o = 0 /\ c5_cnt c5_is_ref4 o = 0.
+
+Lemma RemSpec_nil now p r ds : RemSpec now p r ds ds [].
+Proof.
+  unfold RemSpec. cbn. repeat split.
+  - symmetry. apply filter_true.
+  - constructor.
+  - intros i [].
+  - destruct p; [reflexivity|]. induction ds; cbn; auto.
+Qed.
+
+Lemma filter_ext_in' {A} (f g : A -> bool) l : (forall x, In x l -> f x = g x) -> filter f l = filter g l.
+Proof.
+  induction l as [|a l IH]; intros H; cbn; [reflexivity|].
+  rewrite (H a (or_introl eq_refl)). rewrite IH; [reflexivity|]. intros x Hx. apply H. right. exact Hx.
+Qed.
+
+Lemma split_count (T : dt -> bool) (ma mb : dt -> bool) ds :
+  length (filter T (filter (fun x => ma x || mb x) ds)) =
+  (length (filter T (filter ma ds)) + length (filter T (filter mb (filter (fun x => negb (ma x)) ds))))%nat.
+Proof.
+  induction ds as [|x ds IH]; cbn; [reflexivity|].
+  destruct (ma x); cbn.
+  - destruct (T x); cbn; rewrite IH; reflexivity.
+  - destruct (mb x); cbn; [destruct (T x); cbn|]; rewrite IH; lia.
+Qed.
+
+Lemma RemSpec_compose now p r ds dsa dsb oa ob :
+  NoDup (ids ds) -> RemSpec now p r ds dsa oa -> RemSpec now p r dsa dsb ob -> RemSpec now p r ds dsb (oa ++ ob).
+Proof.
+  intros Hnd (A1 & A2 & A3 & A4 & A5 & A6) (B1 & B2 & B3 & B4 & B5 & B6).
+  unfold RemSpec. rewrite rem_ids_app, !cnt_app.
+  assert (forall i, In i (c5_rem_ids ob) -> ~ In i (c5_rem_ids oa)) as Hdisj.
+  { intros i Hb Ha. destruct (B3 i Hb) as (d & Hd & Hid & _). rewrite A1 in Hd. apply filter_In in Hd.
+    destruct Hd as [_ Hd]. apply negb_true_iff in Hd. rewrite Hid in Hd.
+    apply mem_In in Ha. congruence. }
+  repeat split.
+  - rewrite B1, A1, filter_filter. apply filter_ext_in'. intros x _. rewrite mem_app, negb_orb. reflexivity.
+  - clear - A2 B2 Hdisj. induction (c5_rem_ids oa) as [|a l IH]; cbn; [exact B2|].
+    inversion A2; subst. constructor.
+    + intros Hin. apply in_app_or in Hin. destruct Hin as [Hin|Hin]; [auto|]. apply (Hdisj a Hin). left. reflexivity.
+    + apply IH; [assumption|]. intros i Hb Ha. apply (Hdisj i Hb). right. exact Ha.
+  - intros i Hin. apply in_app_or in Hin. destruct Hin as [Hin|Hin]; [apply A3; exact Hin|].
+    destruct (B3 i Hin) as (d & Hd & Hid & Ho). exists d. rewrite A1 in Hd. apply filter_In in Hd.
+    repeat split; tauto.
+  - rewrite A4, B4. destruct p; [reflexivity|].
+    rewrite (filter_ext_in' (fun x => c5_mem (d_id x) (c5_rem_ids oa ++ c5_rem_ids ob))
+                            (fun x => c5_mem (d_id x) (c5_rem_ids oa) || c5_mem (d_id x) (c5_rem_ids ob)))
+      by (intros x _; apply mem_app).
+    rewrite split_count. rewrite <- A1. lia.
+  - lia.
+  - lia.
+Qed.
+
+Lemma filter_id_single ds d id :
+  NoDup (ids ds) -> find_dt id ds = Some d -> filter (fun x => d_id x =? id) ds = [d].
+Proof.
+  unfold find_dt, ids. induction ds as [|x ds IH]; cbn; intros Hnd Hf; [discriminate|].
+  inversion Hnd; subst. destruct (d_id x =? id) eqn:E.
+  - inversion Hf; subst. f_equal.
+    assert (forall l, ~ In (d_id d) (map d_id l) -> filter (fun x => d_id x =? id) l = []) as Hn.
+    { induction l as [|y l IHl]; cbn; intros Hni; [reflexivity|].
+      destruct (d_id y =? id) eqn:E2; [exfalso; apply Hni; left; lia|]. apply IHl. tauto. }
+    apply Hn. exact H1.
+  - apply IH; assumption.
+Qed.
+
+Lemma RemSpec_single now p r ds d id :
+  NoDup (ids ds) -> find_dt id ds = Some d -> d_owned d && is_user r = false ->
+  RemSpec now p r ds (filter (fun x => negb (d_id x =? id)) ds)
+          ([ODtRemoved id] ++ (if dt_is_triggered now d && negb p then [ONotify NDowntimeEnd] else [])).
+Proof.
+  intros Hnd Hf Ho.
+  assert (c5_rem_ids ([ODtRemoved id] ++ (if dt_is_triggered now d && negb p then [ONotify NDowntimeEnd] else [])) = [id]) as Hr.
+  { cbn. destruct (dt_is_triggered now d && negb p); reflexivity. }
+  unfold RemSpec. rewrite Hr. repeat split.
+  - apply filter_ext_in'. intros x _. unfold c5_mem. cbn. rewrite orb_false_r. reflexivity.
+  - repeat constructor. intros [].
+  - intros i [<-|[]]. exists d. destruct (find_dt_some _ _ _ Hf). repeat split; assumption.
+  - rewrite (filter_ext_in' (fun x => c5_mem (d_id x) [id]) (fun x => d_id x =? id))
+      by (intros x _; unfold c5_mem; cbn; rewrite orb_false_r; reflexivity).
+    rewrite (filter_id_single ds d id Hnd Hf). cbn.
+    destruct (dt_is_triggered now d), p; reflexivity.
+  - cbn. destruct (dt_is_triggered now d && negb p); reflexivity.
+  - cbn. destruct (dt_is_triggered now d && negb p); reflexivity.
+Qed.
+
+Lemma RemSpec_nodup now p r ds ds' o : NoDup (ids ds) -> RemSpec now p r ds ds' o -> NoDup (ids ds').
+Proof. intros Hnd (A1 & _). rewrite A1. apply nodup_ids_filter. exact Hnd. Qed.
+
+Lemma remove_dt_spec fuel : forall now p id ch r ds,
+  NoDup (ids ds) ->
+  let res := remove_dt fuel now p id ch r ds in
+  RemSpec now p r ds (fst (fst res)) (snd (fst res)).
+Proof.
+  induction fuel as [|fuel IH]; intros now p id ch r ds Hnd; cbn [remove_dt]; cbn zeta.
+  - cbn. apply RemSpec_nil.
+  - destruct (find_dt id ds) as [d|] eqn:Hf; [|cbn; apply RemSpec_nil].
+    fold (is_user r).
+    destruct (d_owned d && is_user r) eqn:Ho; [cbn; apply RemSpec_nil|].
+    match goal with |- context [fold_left ?g ?l ?a] =>
+      assert (RemSpec now p r ds (fst (fst (fold_left g l a))) (snd (fst (fold_left g l a)))) as H end.
+    { apply fold_left_inv with (Q := fun acc => RemSpec now p r ds (fst (fst acc)) (snd (fst acc))).
+      - cbn. apply RemSpec_nil.
+      - intros [[dsa oa] oka] k _ Ha. cbn [fst snd] in Ha. destruct oka; [|exact Ha].
+        pose proof (IH now p k true r dsa (RemSpec_nodup _ _ _ _ _ _ Hnd Ha)) as Hi. cbn zeta in Hi.
+        destruct (remove_dt fuel now p k true r dsa) as [[dsb ob] okb]. cbn [fst snd] in *.
+        eapply RemSpec_compose; eassumption. }
+    match goal with |- context [fold_left ?g ?l ?a] => destruct (fold_left g l a) as [[ds1 o1] ok1] end.
+    cbn [fst snd] in H.
+    destruct (negb ok1); [exact H|].
+    destruct (find_dt id ds1) as [d1|] eqn:Hf1; [|exact H].
+    cbn [fst snd].
+    eapply RemSpec_compose; [exact Hnd|exact H|].
+    apply RemSpec_single; [eapply RemSpec_nodup; eassumption|exact Hf1|].
+    (* d1 is d *)
+    destruct H as (A1 & _). destruct (find_dt_some _ _ _ Hf1) as [Hin1 Hid1].
+    rewrite A1 in Hin1. apply filter_In in Hin1. destruct Hin1 as [Hin1 _].
+    pose proof (find_dt_nodup ds d1 Hnd Hin1) as F. rewrite Hid1, Hf in F. inversion F; subst. exact Ho.
+Qed.
+
+(* ------------------------------------------------------------------ events of the non-removing operations *)
+Definition quiet (o : list out) : Prop :=
+  c5_rem_ids o = [] /\ c5_cnt c5_is_end o = 0 /\ c5_cnt c5_is_ref4 o = 0.
+
+Lemma quiet_nil : quiet []. Proof. repeat split. Qed.
+Lemma quiet_app a b : quiet a -> quiet b -> quiet (a ++ b).
+Proof.
+  intros (A1 & A2 & A3) (B1 & B2 & B3). unfold quiet. rewrite rem_ids_app, !cnt_app, A1, B1. repeat split; lia.
+Qed.
+Lemma trig_out_quiet o : Forall trig_out o -> quiet o.
+Proof.
+  induction 1 as [|x l Hx _ IH]; [apply quiet_nil|]. change (x :: l) with ([x] ++ l). apply quiet_app; [|exact IH].
+  destruct x; try destruct Hx; try (destruct t; try destruct Hx); repeat split.
+Qed.
+Lemma plain_quiet o : Forall plain o -> quiet o /\ c5_cnt c5_is_start o = 0 /\ c5_trig_ids o = [].
+Proof.
+  induction 1 as [|x l Hx _ (IH1 & IH2 & IH3)]; [repeat split|].
+  change (x :: l) with ([x] ++ l). rewrite cnt_app, trig_ids_app, IH2, IH3.
+  split; [apply quiet_app; [|exact IH1]|];
+    destruct x; try destruct Hx; try (destruct t; try destruct Hx); repeat split.
+Qed.
+
+Lemma has_true_in id ds : In id (ids ds) -> c5_has id ds = true.
+Proof.
+  intros Hin. unfold c5_has. destruct (find_dt id ds) eqn:E; [reflexivity|].
+  exfalso. exact (find_dt_none _ _ E Hin).
+Qed.
+
+Lemma gone_nil pre post : incl (ids pre) (ids post) -> c5_gone pre post = [].
+Proof.
+  intros Hi. unfold c5_gone.
+  assert (forall l, incl l pre -> filter (fun d => negb (c5_has (d_id d) post)) l = []) as H.
+  { induction l as [|x l IH]; intros Hl; cbn; [reflexivity|].
+    rewrite has_true_in; [cbn; apply IH; intros y Hy; apply Hl; right; exact Hy|].
+    apply Hi. unfold ids. apply in_map. apply Hl. left. reflexivity. }
+  apply H. apply incl_refl.
+Qed.
+
+(* the events of each non-removing operation are quiet *)
+Lemma trigger_fold_outs_add c now id fixed start end_ dur trig_by parent owned f :
+  quiet (snd (do_dt_add c now id fixed start end_ dur trig_by parent owned f)).
+Proof.
+  unfold do_dt_add.
+  match goal with |- context [let '(ds1, o1) := ?X in _] => remember X as x1 eqn:E1 end.
+  assert (Forall trig_out (snd x1)) as H1.
+  { subst x1. destruct (negb fixed && negb (is_ok (c_kind (fc_base c)) (s_raw (f_st f)))); [apply trigger_dt_outs|constructor]. }
+  clear E1. destruct x1 as [ds1 o1]. cbn [snd] in H1.
+  match goal with |- context [let '(ds2, o2) := ?X in _] => remember X as x2 eqn:E2 end.
+  assert (Forall trig_out (snd x2)) as H2.
+  { subst x2. destruct (find_dt id ds1) as [d1|]; [|constructor].
+    destruct (fixed && dt_can_be_triggered now d1); [|constructor].
+    pose proof (trigger_dt_outs (chain_fuel ds1) now (f_paused f) id (Z.max start now) ds1) as Hi.
+    destruct (trigger_dt (chain_fuel ds1) now (f_paused f) id (Z.max start now) ds1) as [dsx ox]. cbn [snd] in *.
+    apply Forall_app. split; [destruct (negb (f_paused f)); repeat constructor|exact Hi]. }
+  clear E2. destruct x2 as [ds2 o2]. cbn [snd] in *.
+  apply quiet_app; [apply trig_out_quiet; exact H1|]. apply quiet_app; [apply trig_out_quiet; exact H2|].
+  repeat split.
+Qed.
+
+Lemma start_timer_outs now f : Forall trig_out (snd (do_dt_start_timer now f)).
+Proof.
+  unfold do_dt_start_timer.
+  match goal with |- context [fold_left ?g ?l ?a] =>
+    assert (Forall trig_out (snd (fold_left g l a))) as H end.
+  { apply fold_left_inv with (Q := fun acc => Forall trig_out (snd acc)); [constructor|].
+    intros [dsa oa] id _ Ha. cbn [snd] in Ha.
+    destruct (find_dt id dsa) as [d|]; [|exact Ha].
+    destruct (dt_can_be_triggered now d && d_fixed d); [|exact Ha].
+    pose proof (trigger_dt_outs (chain_fuel dsa) now (f_paused f) id (Z.max (d_start d) (d_entry d)) dsa) as Hi.
+    destruct (trigger_dt (chain_fuel dsa) now (f_paused f) id (Z.max (d_start d) (d_entry d)) dsa) as [dsb ob].
+    cbn [snd] in *. apply Forall_app. split; [exact Ha|]. apply Forall_app. split; [|exact Hi].
+    destruct (negb (f_paused f)); repeat constructor. }
+  match goal with |- context [fold_left ?g ?l ?a] => destruct (fold_left g l a) as [ds o] end.
+  exact H.
+Qed.
+
+Lemma result_outs_quiet c now r f : quiet (snd (do_result c now r f)).
+Proof.
+  destruct (rejected now (f_st f) r) eqn:Hrej.
+  - unfold do_result. rewrite Hrej. repeat split.
+  - destruct (do_result_shape c now r f Hrej) as (_ & _ & oa & ob & -> & Ha & Hb). cbn zeta.
+    apply quiet_app; [apply plain_quiet; exact Ha|]. apply quiet_app; [|apply plain_quiet; exact Hb].
+    destruct (negb (is_ok (c_kind (fc_base c)) (r_state r))); [apply trig_out_quiet, trigger_all_outs|apply quiet_nil].
+Qed.
+
+(* ------------------------------------------------------------------ the removal checks on a model step *)
+Lemma gone_filter pre rem :
+  NoDup (ids pre) ->
+  c5_gone pre (filter (fun x => negb (c5_mem (d_id x) rem)) pre) = filter (fun x => c5_mem (d_id x) rem) pre.
+Proof.
+  intros Hnd. unfold c5_gone. apply filter_ext_in'. intros d Hd.
+  destruct (c5_mem (d_id d) rem) eqn:E.
+  - unfold c5_has. destruct (find_dt (d_id d) (filter (fun x => negb (c5_mem (d_id x) rem)) pre)) as [x|] eqn:F; [|reflexivity].
+    apply find_dt_some in F. destruct F as [Fx Fid]. apply filter_In in Fx. destruct Fx as [_ Fx].
+    rewrite Fid, E in Fx. discriminate.
+  - rewrite has_true_in; [reflexivity|]. unfold ids. apply in_map. apply filter_In. split; [exact Hd|]. rewrite E. reflexivity.
+Qed.
+
+Lemma nodup_same_length (l1 l2 : list Z) :
+  NoDup l1 -> NoDup l2 -> incl l1 l2 -> incl l2 l1 -> length l1 = length l2.
+Proof.
+  intros N1 N2 I1 I2. pose proof (NoDup_incl_length N1 I1). pose proof (NoDup_incl_length N2 I2). lia.
+Qed.
+
+Lemma RemSpec_checks now p r pre post o tail_ :
+  NoDup (ids pre) -> RemSpec now p r pre post o -> c5_rem_ids tail_ = [] -> c5_cnt c5_is_end tail_ = 0 ->
+  let gone := c5_gone pre post in
+  let rem := c5_rem_ids (o ++ tail_) in
+  (forallb (fun d => c5_mem (d_id d) rem) gone && forallb (fun i => c5_mem i (map d_id gone)) rem
+   && (Z.of_nat (length rem) =? Z.of_nat (length gone))) = true /\
+  c5_cnt c5_is_end (o ++ tail_) =
+    (if p then 0 else Z.of_nat (length (filter (dt_is_triggered now) gone))) /\
+  forallb (fun d => negb (d_owned d && is_user r) || c5_has (d_id d) post) pre = true.
+Proof.
+  intros Hnd (A1 & A2 & A3 & A4 & _ & _) Ht1 Ht2. cbn zeta.
+  rewrite rem_ids_app, Ht1, app_nil_r, cnt_app, Ht2, Z.add_0_r.
+  assert (c5_gone pre post = filter (fun x => c5_mem (d_id x) (c5_rem_ids o)) pre) as Hg.
+  { rewrite A1. apply gone_filter. exact Hnd. }
+  rewrite Hg. split; [|split].
+  - apply andb_true_intro. split; [apply andb_true_intro; split|].
+    + apply forallb_forall. intros d Hd. apply filter_In in Hd. tauto.
+    + apply forallb_forall. intros i Hi. destruct (A3 i Hi) as (d & Hd & Hid & _).
+      apply mem_In. rewrite <- Hid. apply in_map. apply filter_In. split; [exact Hd|].
+      rewrite Hid. apply mem_In. exact Hi.
+    + apply Z.eqb_eq. f_equal.
+      rewrite <- (map_length d_id (filter (fun x => c5_mem (d_id x) (c5_rem_ids o)) pre)).
+      apply nodup_same_length; [exact A2|apply (nodup_ids_filter _ _ Hnd)| |].
+      * intros i Hi. destruct (A3 i Hi) as (d & Hd & Hid & _). rewrite <- Hid. apply in_map. apply filter_In.
+        split; [exact Hd|]. rewrite Hid. apply mem_In. exact Hi.
+      * intros i Hi. apply in_map_iff in Hi. destruct Hi as (d & Hid & Hd). apply filter_In in Hd.
+        rewrite <- Hid. apply mem_In. tauto.
+  - exact A4.
+  - apply forallb_forall. intros d Hd. destruct (d_owned d && is_user r) eqn:Ho; [|reflexivity]. cbn.
+    apply has_true_in. rewrite A1. unfold ids. apply in_map. apply filter_In. split; [exact Hd|].
+    apply negb_true_iff. destruct (c5_mem (d_id d) (c5_rem_ids o)) eqn:E; [|reflexivity].
+    apply mem_In in E. destruct (A3 _ E) as (d2 & Hd2 & Hid2 & Ho2).
+    pose proof (find_dt_nodup pre d Hnd Hd) as F1. pose proof (find_dt_nodup pre d2 Hnd Hd2) as F2.
+    rewrite Hid2 in F2. rewrite F1 in F2. inversion F2; subst. congruence.
+Qed.
+
+(* ================================================================== Part 4: counting DowntimeStart requests *)
+
+(* number of downtimes that have not been triggered yet *)
+Definition U (ds : list dt) : Z := Z.of_nat (length (filter (fun d => d_trigger d =? 0) ds)).
+Definition sane (now : Z) (ds : list dt) : Prop := Forall (trig_sane now) ds.
+(* no fixed downtime is chained to another downtime *)
+Definition nofixedchain (ds : list dt) : Prop :=
+  forall p cid c, In p ds -> In cid (d_triggers p) -> find_dt cid ds = Some c -> d_fixed c = false.
+
+Lemma U_cons d ds : U (d :: ds) = (if d_trigger d =? 0 then 1 else 0) + U ds.
+Proof. unfold U. cbn [filter]. destruct (d_trigger d =? 0); cbn [length]; lia. Qed.
+
+Lemma Rl_sane now t ds ds' : 0 < t <= now -> sane now ds -> Rl now t ds ds' -> sane now ds'.
+Proof.
+  intros Ht Hs HR. unfold sane in *. induction HR; [constructor|]. inversion Hs; subst. constructor; [|apply IHHR; assumption].
+  destruct H as [->|(_ & _ & ->)]; [assumption|]. right. cbn. exact Ht.
+Qed.
+
+Lemma R1_static now t d d' : R1 now t d d' -> d_triggers d' = d_triggers d /\ d_fixed d' = d_fixed d.
+Proof. intros [->|(_ & _ & ->)]; split; reflexivity. Qed.
+
+Lemma Rl_nofixedchain now t ds ds' : NoDup (ids ds) -> nofixedchain ds -> Rl now t ds ds' -> nofixedchain ds'.
+Proof.
+  intros Hnd Hn HR p' cid c' Hp' Hcid Hf.
+  destruct (Rl_in _ _ _ _ _ HR Hp') as (p & Hp & Rp).
+  destruct (find_dt_some _ _ _ Hf) as [Hc' Hid'].
+  destruct (Rl_in _ _ _ _ _ HR Hc') as (c & Hc & Rc).
+  destruct (R1_static _ _ _ _ Rp) as [Tp _]. destruct (R1_static _ _ _ _ Rc) as [_ Fc].
+  rewrite Fc. apply (Hn p cid c Hp); [rewrite <- Tp; exact Hcid|].
+  pose proof (find_dt_nodup ds c Hnd Hc) as F. rewrite <- (R1_id _ _ _ _ Rc), Hid' in F. exact F.
+Qed.
+
+Lemma upd_notin id t ds : ~ In id (ids ds) -> upd_trigger id t ds = ds.
+Proof.
+  unfold upd_trigger, ids. induction ds as [|x ds IH]; cbn; intros H; [reflexivity|].
+  destruct (d_id x =? id) eqn:E; [exfalso; apply H; left; lia|]. f_equal. apply IH. tauto.
+Qed.
+
+Lemma U_upd t ds d :
+  NoDup (ids ds) -> In d ds -> d_trigger d = 0 -> t <> 0 -> U (upd_trigger (d_id d) t ds) = U ds - 1.
+Proof.
+  unfold ids. induction ds as [|x ds IH]; intros Hnd Hin Ht Hn; [destruct Hin|].
+  cbn [map] in Hnd. inversion Hnd; subst. destruct Hin as [->|Hin].
+  - unfold upd_trigger. cbn [map]. rewrite Z.eqb_refl. fold (upd_trigger (d_id d) t ds).
+    rewrite (upd_notin _ _ _ H1). rewrite !U_cons. cbn [d_trigger]. rewrite Ht.
+    replace (0 =? 0) with true by reflexivity. replace (t =? 0) with false by lia. lia.
+  - assert (d_id x =? d_id d = false) as E.
+    { apply Z.eqb_neq. intros E. apply H1. rewrite E. apply in_map. exact Hin. }
+    unfold upd_trigger. cbn [map]. rewrite E. fold (upd_trigger (d_id d) t ds). rewrite !U_cons, IH by assumption. lia.
+Qed.
+
+(* what one TriggerDowntime call contributes on top of the downtimes it newly triggers: a fixed downtime
+   triggered by the call itself gets no DowntimeStart from TriggerDowntime (its caller sends it) *)
+Definition extra_fixed (now : Z) (id : Z) (ds : list dt) : Z :=
+  match find_dt id ds with
+  | Some d => if d_fixed d && dt_can_be_triggered now d && (d_trigger d =? 0) then 1 else 0
+  | None => 0
+  end.
+
+Lemma start_count_trigger fuel : forall now p id t ds,
+  NoDup (ids ds) -> sane now ds -> 0 < t <= now -> nofixedchain ds ->
+  (fuel <> O \/ extra_fixed now id ds = 0) ->
+  c5_cnt c5_is_start (snd (trigger_dt fuel now p id t ds)) =
+  (if p then 0 else U ds - U (fst (trigger_dt fuel now p id t ds)) - extra_fixed now id ds).
+Proof.
+  induction fuel as [|fuel IH]; intros now p id t ds Hnd Hs Ht Hn Hfu.
+  - cbn. destruct Hfu as [Hfu|Hfu]; [contradiction|]. rewrite Hfu. destruct p; lia.
+  - cbn [trigger_dt]. unfold extra_fixed. destruct (find_dt id ds) as [d|] eqn:Hf; [|cbn; destruct p; lia].
+    destruct (dt_can_be_triggered now d) eqn:Hc; cbn [negb];
+      [|cbn [fst snd]; rewrite andb_false_r; cbn; destruct p; lia].
+    destruct (find_dt_some _ _ _ Hf) as [Hin Hid].
+    assert (trig_sane now d) as Hsd by (unfold sane in Hs; rewrite Forall_forall in Hs; apply Hs; exact Hin).
+    set (ds1 := if d_trigger d =? 0 then upd_trigger id t ds else ds).
+    assert (Rl now t ds ds1) as H1.
+    { unfold ds1. destruct (d_trigger d =? 0) eqn:E; [|apply Rl_refl].
+      apply upd_trigger_Rl with d; try assumption; [lia|apply can_inwin; exact Hc]. }
+    assert (U ds1 = U ds - (if d_trigger d =? 0 then 1 else 0)) as HU1.
+    { unfold ds1. destruct (d_trigger d =? 0) eqn:E; [|lia]. rewrite <- Hid. apply U_upd; try assumption; lia. }
+    assert (d_fixed d = false -> d_trigger d = 0) as Hflex.
+    { intros Hfx. apply (flex_can_untriggered now d Hsd Hfx Hc). }
+    (* the loop over the chained downtimes *)
+    match goal with |- context [fold_left ?g ?l ?a] =>
+      assert (let r := fold_left g l a in
+              Rl now t ds1 (fst r) /\
+              c5_cnt c5_is_start (snd r) = (if p then 0 else U ds1 - U (fst r))) as H2 end.
+    { apply fold_left_inv with
+        (Q := fun acc => Rl now t ds1 (fst acc) /\ c5_cnt c5_is_start (snd acc) = (if p then 0 else U ds1 - U (fst acc))).
+      - split; [apply Rl_refl|]. cbn. destruct p; lia.
+      - intros [dsa oa] cid Hcid [Ha Hca]. cbn [fst snd] in Ha, Hca.
+        assert (Rl now t ds dsa) as Ha0 by (apply (Rl_trans _ _ _ _ _ H1 Ha)).
+        assert (NoDup (ids dsa)) as Hnda by (rewrite (Rl_ids _ _ _ _ Ha0); exact Hnd).
+        assert (sane now dsa) as Hsa by (apply (Rl_sane now t ds dsa Ht Hs Ha0)).
+        assert (nofixedchain dsa) as Hna by (apply (Rl_nofixedchain now t ds dsa Hnd Hn Ha0)).
+        assert (extra_fixed now cid dsa = 0) as Hex.
+        { unfold extra_fixed. destruct (find_dt cid dsa) as [cc|] eqn:Fc; [|reflexivity].
+          (* cid is chained to d: it is not fixed *)
+          destruct (Rl_in_l _ _ _ _ _ Ha0 Hin) as (da & Hda & Rda).
+          destruct (R1_static _ _ _ _ Rda) as [Tda _].
+          rewrite (Hna da cid cc Hda); [reflexivity|rewrite Tda; exact Hcid|exact Fc]. }
+        pose proof (IH now p cid t dsa Hnda Hsa Ht Hna (or_intror Hex)) as Hi.
+        pose proof (trigger_dt_Rl fuel now p cid t dsa Hnda) as HRi.
+        destruct (trigger_dt fuel now p cid t dsa) as [dsb ob]. cbn [fst snd] in *.
+        split; [eapply Rl_trans; eassumption|]. rewrite cnt_app, Hca, Hi, Hex. destruct p; lia. }
+    match goal with |- context [fold_left ?g ?l ?a] => destruct (fold_left g l a) as [ds2 o2] end.
+    cbn zeta in H2. cbn [fst snd] in *. destruct H2 as [_ H2].
+    rewrite !cnt_app, H2, HU1.
+    change (c5_cnt c5_is_start [ODtTriggered id]) with 0.
+    destruct (d_fixed d) eqn:Hfx; cbn [negb andb].
+    + change (c5_cnt c5_is_start []) with 0. destruct (d_trigger d =? 0), p; lia.
+    + rewrite (Hflex eq_refl). replace (0 =? 0) with true by reflexivity.
+      destruct p; cbn [negb]; [change (c5_cnt c5_is_start []) with 0|change (c5_cnt c5_is_start [ONotify NDowntimeStart]) with 1]; lia.
+Qed.
+
+(* ---- number of newly triggered downtimes = decrease of U ---- *)
+Definition Cmp (pre post : list dt) : Prop :=
+  Forall2 (fun d d' => d_id d' = d_id d /\ (d_trigger d' = d_trigger d \/ d_trigger d = 0)) pre post.
+
+Lemma Rwl_Cmp now a b : Rwl now a b -> Cmp a b.
+Proof.
+  induction 1; constructor; [|assumption].
+  destruct H as [->|(H1 & _ & t & ->)]; split; auto.
+Qed.
+
+Lemma Cmp_add_trigger pre post p c : Cmp pre post -> Cmp pre (add_trigger p c post).
+Proof.
+  induction 1; cbn; constructor; [|assumption].
+  destruct ((d_id y =? p) && negb (existsb (Z.eqb c) (d_triggers y))); assumption.
+Qed.
+
+Lemma U_add_trigger p c ds : U (add_trigger p c ds) = U ds.
+Proof.
+  unfold U, add_trigger. f_equal. induction ds as [|x ds IH]; cbn; [reflexivity|].
+  destruct ((d_id x =? p) && negb (existsb (Z.eqb c) (d_triggers x))); cbn [d_trigger];
+    destruct (d_trigger x =? 0); cbn; rewrite IH; reflexivity.
+Qed.
+
+Lemma newly_count pre post :
+  NoDup (ids pre) -> Cmp pre post -> Z.of_nat (length (c5_newly pre post)) = U pre - U post.
+Proof.
+  intros Hnd HC. unfold c5_newly.
+  assert (forall l l', Forall2 (fun d d' => d_id d' = d_id d /\ (d_trigger d' = d_trigger d \/ d_trigger d = 0)) l l' ->
+            incl l pre ->
+            Z.of_nat (length (filter (fun d' => negb (d_trigger d' =? 0) && (c5_trig_of (d_id d') pre =? 0)) l')) = U l - U l') as H.
+  { induction 1 as [|d d' l l' [Hid Ht] _ IH]; intros Hi; [reflexivity|].
+    assert (In d pre) as Hd by (apply Hi; left; reflexivity).
+    assert (c5_trig_of (d_id d') pre = d_trigger d) as Hl.
+    { unfold c5_trig_of. rewrite Hid, (find_dt_nodup pre d Hnd Hd). reflexivity. }
+    cbn [filter]. rewrite Hl, !U_cons.
+    assert (incl l pre) as Hi' by (intros y Hy; apply Hi; right; exact Hy). specialize (IH Hi').
+    destruct (d_trigger d' =? 0) eqn:E1, (d_trigger d =? 0) eqn:E2; cbn [negb andb length]; try lia. }
+  apply H; [exact HC|apply incl_refl].
+Qed.
+
+Lemma newly_app_fresh pre dnew post :
+  ~ In (d_id dnew) (ids pre) -> d_trigger dnew = 0 -> c5_newly pre post = c5_newly (pre ++ [dnew]) post.
+Proof.
+  intros Hf Ht. unfold c5_newly. apply filter_ext_in'. intros d' _. f_equal. f_equal.
+  unfold c5_trig_of. destruct (Z.eq_dec (d_id dnew) (d_id d')) as [E|E].
+  - rewrite <- E, (find_dt_app_fresh (d_id dnew) pre dnew Hf eq_refl), Ht.
+    destruct (find_dt (d_id dnew) pre) eqn:F; [|reflexivity]. exfalso. apply find_dt_some in F.
+    destruct F as [F1 F2]. apply Hf. rewrite <- F2. unfold ids. apply in_map. exact F1.
+  - rewrite (find_dt_app_old _ pre dnew E). reflexivity.
+Qed.
+
+(* ---- TriggerDowntimes ---- *)
+Lemma start_count_trigger_all now p t ds :
+  NoDup (ids ds) -> sane now ds -> 0 < t <= now -> nofixedchain ds ->
+  existsb (fun d => d_fixed d && (d_trigger d =? 0) && c5_inwin now d) ds = false ->
+  c5_cnt c5_is_start (snd (trigger_all now p t ds)) = (if p then 0 else U ds - U (fst (trigger_all now p t ds))).
+Proof.
+  intros Hnd Hs Ht Hn Hex. unfold trigger_all.
+  match goal with |- context [fold_left ?g ?l ?a] =>
+    assert (let r := fold_left g l a in
+            Rl now t ds (fst r) /\ c5_cnt c5_is_start (snd r) = (if p then 0 else U ds - U (fst r))) as H end.
+  { apply fold_left_inv with
+      (Q := fun acc => Rl now t ds (fst acc) /\ c5_cnt c5_is_start (snd acc) = (if p then 0 else U ds - U (fst acc))).
+    - split; [apply Rl_refl|]. cbn [fst snd]. change (c5_cnt c5_is_start []) with 0. destruct p; lia.
+    - intros [dsa oa] id _ [Ha Hca]. cbn [fst snd] in Ha, Hca.
+      assert (NoDup (ids dsa)) as Hnda by (rewrite (Rl_ids _ _ _ _ Ha); exact Hnd).
+      assert (sane now dsa) as Hsa by (apply (Rl_sane now t ds dsa Ht Hs Ha)).
+      assert (nofixedchain dsa) as Hna by (apply (Rl_nofixedchain now t ds dsa Hnd Hn Ha)).
+      assert (extra_fixed now id dsa = 0) as Hx.
+      { unfold extra_fixed. destruct (find_dt id dsa) as [da|] eqn:Fa; [|reflexivity].
+        destruct (d_fixed da && dt_can_be_triggered now da && (d_trigger da =? 0)) eqn:E; [|reflexivity].
+        exfalso. apply andb_prop in E. destruct E as [E E3]. apply andb_prop in E. destruct E as [E1 E2].
+        destruct (find_dt_some _ _ _ Fa) as [Hda _].
+        destruct (Rl_in _ _ _ _ _ Ha Hda) as (d & Hd & HR).
+        assert (da = d) as ->.
+        { destruct HR as [->|(_ & _ & ->)]; [reflexivity|]. cbn in E3. lia. }
+        assert (existsb (fun d => d_fixed d && (d_trigger d =? 0) && c5_inwin now d) ds = true) as Hc.
+        { apply existsb_exists. exists d. split; [exact Hd|]. rewrite E1, E3, (can_inwin _ _ E2). reflexivity. }
+        congruence. }
+      pose proof (start_count_trigger (chain_fuel dsa) now p id t dsa Hnda Hsa Ht Hna (or_intror Hx)) as Hi.
+      pose proof (trigger_dt_Rl (chain_fuel dsa) now p id t dsa Hnda) as HRi.
+      destruct (trigger_dt (chain_fuel dsa) now p id t dsa) as [dsb ob]. cbn [fst snd] in *.
+      split; [eapply Rl_trans; eassumption|]. rewrite cnt_app, Hca, Hi, Hx. destruct p; lia. }
+  match goal with |- context [fold_left ?g ?l ?a] => destruct (fold_left g l a) as [ds2 o2] end.
+  cbn zeta in H. cbn [fst snd] in *. apply H.
+Qed.
+
+(* ---- the start timer ---- *)
+Lemma Rw_static now d d' :
+  Rw now d d' -> d_triggers d' = d_triggers d /\ d_fixed d' = d_fixed d /\ d_end d' = d_end d /\ d_entry d' = d_entry d.
+Proof. intros [->|(_ & _ & t & ->)]; repeat split; reflexivity. Qed.
+
+Lemma Rwl_nofixedchain now ds ds' : NoDup (ids ds) -> nofixedchain ds -> Rwl now ds ds' -> nofixedchain ds'.
+Proof.
+  intros Hnd Hn HR p' cid c' Hp' Hcid Hf.
+  destruct (Rwl_in _ _ _ _ HR Hp') as (p & Hp & Rp).
+  destruct (find_dt_some _ _ _ Hf) as [Hc' Hid'].
+  destruct (Rwl_in _ _ _ _ HR Hc') as (c & Hc & Rc).
+  destruct (Rw_static _ _ _ Rp) as (Tp & _). destruct (Rw_static _ _ _ Rc) as (_ & Fc & _).
+  rewrite Fc. apply (Hn p cid c Hp); [rewrite <- Tp; exact Hcid|].
+  pose proof (find_dt_nodup ds c Hnd Hc) as F. rewrite <- (Rw_id _ _ _ Rc), Hid' in F. exact F.
+Qed.
+
+Definition entries_sane (now : Z) (ds : list dt) : Prop := Forall (fun d => 0 < d_entry d <= now) ds.
+Definition no_end_instant (now : Z) (ds : list dt) : Prop := Forall (fun d => d_fixed d = true -> now <> d_end d) ds.
+
+Lemma start_count_timer now f :
+  NoDup (ids (f_dts f)) -> sane now (f_dts f) -> entries_sane now (f_dts f) -> nofixedchain (f_dts f) ->
+  no_end_instant now (f_dts f) ->
+  c5_cnt c5_is_start (snd (do_dt_start_timer now f)) =
+    (if f_paused f then 0 else U (f_dts f) - U (f_dts (fst (do_dt_start_timer now f)))) /\
+  sane now (f_dts (fst (do_dt_start_timer now f))).
+Proof.
+  intros Hnd Hs He Hn Hni. unfold do_dt_start_timer. set (p := f_paused f). set (ds := f_dts f) in *.
+  match goal with |- context [fold_left ?g ?l ?a] =>
+    assert (let r := fold_left g l a in
+            Rwl now ds (fst r) /\ sane now (fst r) /\
+            c5_cnt c5_is_start (snd r) = (if p then 0 else U ds - U (fst r))) as H end.
+  { apply fold_left_inv with
+      (Q := fun acc => Rwl now ds (fst acc) /\ sane now (fst acc) /\
+                       c5_cnt c5_is_start (snd acc) = (if p then 0 else U ds - U (fst acc))).
+    - split; [apply Rwl_refl|]. split; [exact Hs|]. cbn [fst snd]. change (c5_cnt c5_is_start []) with 0. destruct p; lia.
+    - intros [dsa oa] id _ (Ha & Hsa & Hca). cbn [fst snd] in Ha, Hsa, Hca.
+      destruct (find_dt id dsa) as [da|] eqn:Fa; [|repeat split; assumption].
+      destruct (dt_can_be_triggered now da && d_fixed da) eqn:E; [|repeat split; assumption].
+      apply andb_prop in E. destruct E as [Ec Ef].
+      assert (NoDup (ids dsa)) as Hnda by (rewrite (Rwl_ids _ _ _ Ha); exact Hnd).
+      assert (nofixedchain dsa) as Hna by (apply (Rwl_nofixedchain now ds dsa Hnd Hn Ha)).
+      destruct (find_dt_some _ _ _ Fa) as [Hda Hida].
+      destruct (Rwl_in _ _ _ _ Ha Hda) as (d & Hd & HRd). destruct (Rw_static _ _ _ HRd) as (_ & Sf & Se & Sn).
+      assert (trig_sane now da) as Hsda by (unfold sane in Hsa; rewrite Forall_forall in Hsa; apply Hsa; exact Hda).
+      assert (d_trigger da = 0) as Ht0.
+      { destruct (Z.eq_dec (d_trigger da) 0) as [E0|E0]; [exact E0|]. exfalso.
+        pose proof (fixed_can_triggered now da Hsda Ef Ec E0) as Hend.
+        unfold no_end_instant in Hni. rewrite Forall_forall in Hni. apply (Hni d Hd); [congruence|congruence]. }
+      assert (0 < Z.max (d_start da) (d_entry da) <= now) as Ht.
+      { pose proof (can_inwin _ _ Ec) as Hw. unfold c5_inwin in Hw.
+        unfold entries_sane in He. rewrite Forall_forall in He. pose proof (He d Hd) as Hen. rewrite <- Sn in Hen. lia. }
+      assert (extra_fixed now id dsa = 1) as Hx.
+      { unfold extra_fixed. rewrite Fa, Ef, Ec, Ht0. reflexivity. }
+      assert (chain_fuel dsa <> O) as Hfu by (unfold chain_fuel; discriminate).
+      pose proof (start_count_trigger (chain_fuel dsa) now p id (Z.max (d_start da) (d_entry da)) dsa Hnda Hsa Ht Hna
+                    (or_introl Hfu)) as Hi.
+      pose proof (trigger_dt_Rl (chain_fuel dsa) now p id (Z.max (d_start da) (d_entry da)) dsa Hnda) as HRi.
+      destruct (trigger_dt (chain_fuel dsa) now p id (Z.max (d_start da) (d_entry da)) dsa) as [dsb ob]. cbn [fst snd] in *.
+      split; [eapply Rwl_trans; [exact Ha|eapply Rl_Rwl; exact HRi]|].
+      split; [apply (Rl_sane now _ dsa dsb Ht Hsa HRi)|].
+      rewrite !cnt_app, Hca, Hi, Hx. destruct p; cbn [negb].
+      + change (c5_cnt c5_is_start []) with 0. lia.
+      + change (c5_cnt c5_is_start [ONotify NDowntimeStart]) with 1. lia. }
+  match goal with |- context [fold_left ?g ?l ?a] => destruct (fold_left g l a) as [ds2 o2] end.
+  cbn zeta in H. cbn [fst snd set_dts f_dts] in *. destruct H as (_ & H2 & H3). split; assumption.
+Qed.
+
+(* ---- AddDowntime ---- *)
+Ltac cnt_eval :=
+  repeat match goal with |- context [c5_cnt ?p ?l] =>
+    let v := eval compute in (c5_cnt p l) in change (c5_cnt p l) with v end.
+
+Lemma trigger_dt_noop n now p id t ds d :
+  find_dt id ds = Some d -> dt_can_be_triggered now d = false -> trigger_dt (S n) now p id t ds = (ds, []).
+Proof. intros Hf Hc. cbn [trigger_dt]. rewrite Hf, Hc. reflexivity. Qed.
+
+Lemma trigger_dt_leaf n now p id t ds d :
+  find_dt id ds = Some d -> d_triggers d = [] -> dt_can_be_triggered now d = true ->
+  trigger_dt (S n) now p id t ds =
+  ((if d_trigger d =? 0 then upd_trigger id t ds else ds),
+   (if negb (d_fixed d) && negb p then [ONotify NDowntimeStart] else []) ++ [ODtTriggered id]).
+Proof. intros Hf Hl Hc. cbn [trigger_dt]. rewrite Hf, Hc, Hl. cbn [negb fold_left app]. reflexivity. Qed.
+
+Lemma add_count c now id fixed start end_ dur trig_by parent owned f :
+  NoDup (ids (f_dts f)) -> ~ In id (ids (f_dts f)) -> 0 < now -> f_lsc f <= now ->
+  let dnew := new_dt now id fixed start end_ dur parent owned in
+  let ds0 := f_dts f ++ [dnew] in
+  let r := do_dt_add c now id fixed start end_ dur trig_by parent owned f in
+  c5_cnt c5_is_start (snd r) = (if f_paused f then 0 else U ds0 - U (f_dts (fst r))) /\
+  (sane now ds0 -> sane now (f_dts (fst r))).
+Proof.
+  intros Hnd Hfresh Hnow Hlsc dnew ds0 r.
+  assert (NoDup (ids ds0)) as Hnd0 by (unfold ds0; rewrite ids_app; apply nodup_snoc; assumption).
+  assert (find_dt id ds0 = Some dnew) as F0 by (apply find_dt_app_fresh; [exact Hfresh|reflexivity]).
+  assert (dt_can_be_triggered now dnew = c5_inwin now dnew) as Hcan by (apply can_untriggered; reflexivity).
+  assert (In dnew ds0) as Hin0 by (unfold ds0; apply in_or_app; right; left; reflexivity).
+  assert (forall T, 0 < T <= now -> c5_inwin now dnew = true ->
+            U (upd_trigger id T ds0) = U ds0 - 1 /\ (sane now ds0 -> sane now (upd_trigger id T ds0))) as Hupd.
+  { intros T HT Hw. split.
+    - apply (U_upd T ds0 dnew Hnd0 Hin0 eq_refl). lia.
+    - intros Hs. apply (Rl_sane now T ds0 _ HT Hs). apply upd_trigger_Rl with dnew; auto. }
+  assert (exists ds2 o12,
+            r = (set_dts f (if trig_by =? 0 then ds2 else add_trigger trig_by id ds2), o12) /\
+            c5_cnt c5_is_start o12 = (if f_paused f then 0 else U ds0 - U ds2) /\
+            (sane now ds0 -> sane now ds2)) as (ds2 & o12 & E & Hc & Hs2).
+  { unfold r, do_dt_add. cbv zeta.
+    change (f_dts f ++ [{| d_id := id; d_fixed := fixed; d_start := start; d_end := end_; d_duration := dur;
+                           d_entry := now; d_trigger := 0; d_triggers := []; d_parent := parent; d_owned := owned |}])
+      with ds0.
+    destruct fixed; cbn [negb andb].
+    - rewrite F0, Hcan. case_eq (c5_inwin now dnew); intros Hw; rewrite Hw in Hcan.
+      + unfold chain_fuel. rewrite (trigger_dt_leaf _ now (f_paused f) id _ ds0 dnew F0 eq_refl Hcan).
+        cbn [d_trigger dnew new_dt d_fixed negb andb app]. replace (0 =? 0) with true by reflexivity.
+        assert (0 < Z.max start now <= now) as HT by (unfold c5_inwin in Hw; cbn in Hw; lia).
+        destruct (Hupd _ HT Hw) as [HU HS].
+        eexists _, _. split; [reflexivity|]. split; [|exact HS].
+        rewrite HU. destruct (f_paused f); cbn [negb app]; cbv iota.
+        * cnt_eval. lia.
+        * cnt_eval. lia.
+      + eexists _, _. split; [reflexivity|]. split; [|auto].
+        cnt_eval. destruct (f_paused f); cbv iota; lia.
+    - destruct (negb (is_ok (c_kind (fc_base c)) (s_raw (f_st f)))) eqn:Hnok.
+      + case_eq (c5_inwin now dnew); intros Hw; rewrite Hw in Hcan.
+        * unfold chain_fuel. rewrite (trigger_dt_leaf _ now (f_paused f) id _ ds0 dnew F0 eq_refl Hcan).
+          cbn [d_trigger dnew new_dt d_fixed negb andb app]. replace (0 =? 0) with true by reflexivity.
+          assert (0 < Z.max (Z.max start now) (f_lsc f) <= now) as HT by (unfold c5_inwin in Hw; cbn in Hw; lia).
+          destruct (Hupd _ HT Hw) as [HU HS].
+          destruct (find_dt id (upd_trigger id (Z.max (Z.max start now) (f_lsc f)) ds0));
+            (eexists _, _; split; [reflexivity|]; split; [|exact HS]; rewrite HU; destruct (f_paused f); cbn [negb app]; cbv iota;
+             [cnt_eval; lia
+             |cnt_eval; lia]).
+        * unfold chain_fuel. rewrite (trigger_dt_noop _ _ _ _ _ _ dnew F0) by exact Hcan.
+          rewrite F0. eexists _, _. split; [reflexivity|]. split; [|auto].
+          cnt_eval. destruct (f_paused f); cbv iota; lia.
+      + rewrite F0. eexists _, _. split; [reflexivity|]. split; [|auto].
+        cnt_eval. destruct (f_paused f); cbv iota; lia. }
+  rewrite E. cbn [fst snd set_dts f_dts]. split.
+  - rewrite Hc. destruct (trig_by =? 0); [reflexivity|]. rewrite U_add_trigger. reflexivity.
+  - intros Hs. specialize (Hs2 Hs). destruct (trig_by =? 0); [exact Hs2|].
+    unfold sane, add_trigger in *. rewrite Forall_forall in *. intros x Hx. apply in_map_iff in Hx.
+    destruct Hx as (y & <- & Hy). specialize (Hs2 y Hy).
+    destruct ((d_id y =? trig_by) && negb (existsb (Z.eqb id) (d_triggers y))); exact Hs2.
+Qed.
